@@ -36,6 +36,25 @@ def c09(tier):
         arts = D.carrier(host_release=rel)
         items = [D.Item(j, S.emit_field_decl(d)) for j, d in enumerate(decls)]
         PRE = D.PRELUDE + S.c09_prelude()
+        # declarations without any field (brace and unit form, with and without a default): nothing in them can violate a layout rule
+        empties = []
+        for base in ("u1", "u8", "u12", "u32", "u64", "u100", "u128"):
+            for form in ("{}", ";"):
+                for dflt in ("", ", default = 1", ", default: 0"):
+                    empties.append(f"#[bitfield({base}{dflt})] pub struct S{'' if form == ';' else ' '}{form}")
+        ee, eu = D.compile_items(arts, [D.Item(j, t, probes=[("use", "pub fn use_all(s: S) -> S { S::new_with_raw_value(s.raw_value()) }")]) for j, t in enumerate(empties)],
+                                 f"c09-{cname}-empty", emit="link", nshards=4, prelude=PRE)
+        if eu:
+            raise B.MachineryError(f"C09 field-less declarations: unattributed diagnostics: {eu[:3]}")
+        chk.states += len(empties)
+        chk.transitions += len(empties)
+        chk.validated += len(empties)
+        chk.programs += len(empties)
+        for j, t in enumerate(empties):
+            e = ee.get(j) or ee.get((j, "use"))
+            if e:
+                chk.add_violation(f"valid but rejected [{cname}]: {t}", "valid_rejected", f"a bitfield declaration without fields is rejected ({cname} macro build): {t} :: {e[0]}",
+                                  decl_replay(t, "accept", [("use", "pub fn use_all(s: S) -> S { S::new_with_raw_value(s.raw_value()) }")], {"use": "accept"}, emit="link", prelude=PRE))
         errs, unatt = D.compile_items(arts, items, f"c09-{cname}-p1", emit="metadata", nshards=64, prelude=PRE)
         if unatt:
             raise B.MachineryError(f"C09 pass 1: diagnostics that could not be attributed to a declaration: {unatt[:3]}")
